@@ -3,7 +3,7 @@ From Coq Require Import List NArith Bool Lia String.
 Import ListNotations.
 Require Import RV.Lib.PyStr RV.Model.Path RV.Model.Url.
 Require Import RV.Proofs.PyStrLemmas RV.Proofs.PathProofs RV.Proofs.UrlUtf8 RV.Proofs.UrlPercent RV.Proofs.UrlPath
-               RV.Proofs.UrlParse RV.Proofs.GenEqUrl.
+               RV.Proofs.UrlParse RV.Proofs.UrlBase RV.Proofs.GenEqUrl.
 Require RV.Gen.UrlGen.
 Open Scope list_scope. Open Scope N_scope.
 
@@ -255,3 +255,8 @@ Proof.
     unfold render. rewrite <- join_slash_render by discriminate. reflexivity.
   - unfold sane_path. apply sanitize_render; [exact Hs|]. destruct parts; [left; reflexivity|right; split; [reflexivity|discriminate]].
 Qed.
+
+(* ---------------------------------------------------------------- the selected base prefix *)
+Lemma c18_base_prefix_shape : forall cfg rp x s b, cfg_ok cfg -> select_base cfg rp x s = BOk b ->
+  b = [] \/ (startswith b [slash] = true /\ endswith b [slash] = false).
+Proof. exact select_base_shape. Qed.
